@@ -1224,7 +1224,8 @@ def failure_replay(prog, bad):
 
 class C06(Prop):
     pid = "C06"
-    prebuilt = ["Base/Hex.v", "Model/C06_Render.v", "Model/C06_Mesh.v", "Proofs/C06_Roundtrip.v", "Proofs/C06_Mesh.v"]
+    prebuilt = ["Base/Hex.v", "Model/C06_Render.v", "Model/C06_Mesh.v", "Proofs/C06_Roundtrip.v", "Proofs/C06_Mesh.v",
+                "Proofs/C06_Sections.v"]
     gen_dependent_files = ["Gen/C06/Tables.v"]
     property_files = ["Properties/C06.v"]
     trusted = [
@@ -1238,10 +1239,6 @@ class C06(Prop):
         "program correspondence is sampled (random programs), not exhaustive",
     ]
     partial = [
-        "C06_sections_exact_partial: proved for every mesh - hex entries are the non-deleted operations in order with zone "
-        "and counts and eight indexes each; merged pairs, default patch, settings and header verbatim. Not proved (only "
-        "validated by the program correspondence and the direct oracle): the completeness/exactness clauses of "
-        "C06_sections_exact_stmt for patches, patch types/settings, projected faces and geometry",
         "C06_roundtrip: the edges section is rendered empty and skipped by the parser (its content is C07's)",
     ]
 
